@@ -77,6 +77,9 @@ impl PanicInfo {
     /// Location with the repository prefix removed and without the line number's volatility kept (file:line).
     pub fn short_location(&self) -> String {
         let repo = env!("VERIF_REPO");
+        if self.location.contains("/out/main_extract.rs") {
+            return "src/main.rs(extracted):0".to_string();
+        }
         self.location.strip_prefix(repo).map(|s| s.trim_start_matches('/').to_string()).unwrap_or(self.location.clone())
     }
     pub fn file(&self) -> String {
